@@ -315,6 +315,7 @@ func checkC14(c *Ctx) {
 	r.Count("paths enumerated", sm.an.PathsSeen)
 
 	c.c14Identity(sm, units)
+	c.c14ListOrder(handlers)
 	c.c14Name(handlers, mgr, mbfa)
 	c.c14Routes()
 	c.c14Fields(handlers)
